@@ -74,14 +74,11 @@ K01 = np.array([[0, 1], [0, 0]], dtype=complex)
 
 
 def ptm_kraus(ks, paulis):
-    d = paulis[0].shape[0]
-    n = len(paulis)
-    R = np.zeros((n, n))
-    for b in range(n):
-        E = sum(w * K @ paulis[b] @ K.conj().T for w, K in ks)
-        for a in range(n):
-            R[a, b] = np.real(np.trace(paulis[a] @ E)) / d
-    return R
+    """R[a,b] = re tr(P_a E(P_b)) / d,  E(X) = sum_k w_k K X K^dagger."""
+    P = np.asarray(paulis)
+    d = P.shape[1]
+    E = sum(w * (K @ P @ K.conj().T) for w, K in ks)          # E[b] = E(P_b)
+    return np.real(np.einsum("aij,bji->ab", P, E)) / d
 
 
 def op_matrix(name, params, matrix):
@@ -100,10 +97,22 @@ def op_kraus(name, params, matrix):
     return [(1.0, op_matrix(name, params, matrix))]
 
 
+_OP_CACHE = {}
+
+
+def op_ptm(name, params, matrix):
+    if matrix is not None:
+        return ptm_kraus(op_kraus(name, params, matrix), S1)
+    key = (name, tuple(params))
+    if key not in _OP_CACHE:
+        _OP_CACHE[key] = ptm_kraus(op_kraus(name, params, matrix), S1)
+    return _OP_CACHE[key]
+
+
 def seq_ptm(ops):
     R = np.eye(4)
     for name, params, matrix in ops:
-        R = ptm_kraus(op_kraus(name, params, matrix), S1) @ R
+        R = op_ptm(name, params, matrix) @ R
     return R
 
 
@@ -271,7 +280,7 @@ def canon_basis(basis, th2, d):
 _KAKN = [0]
 
 
-def run_case(w, group, spec, th2=None, cs=(Fraction(1), Fraction(0)), exact=True):
+def run_case(w, group, spec, th2=None, cs=(Fraction(1), Fraction(0)), exact=True, and_judge=False):
     """Run the implementation on build_gate(spec); write the Coq case and the JSON case."""
     g = build_gate(spec)
     isg, nq, pok, mok = gate_flags(g)
@@ -300,8 +309,15 @@ def run_case(w, group, spec, th2=None, cs=(Fraction(1), Fraction(0)), exact=True
         exp = Res(r[0])
     name = g.name
     assert '"' not in name
-    coq_case = (Raw(f'"{name}"'), (isg, nq, pok, mok), (Fraction(cs[0]), Fraction(cs[1])), wl, okak, exp)
     jcase = dict(kind="basis", gate=spec, name=name, flags=[isg, nq, pok, mok], th2=th2, impl=impl)
+    if and_judge:
+        # near-special stream: the independent PTM residual of the observed basis is ANDed into the case, so that an
+        # oracle rejection surfaces as a model/implementation disagreement even where the coefficients look plausible
+        v = judge(jcase)
+        w.contract("independent PTM residual of the observed basis <= 1e-9 (near-special stream)", not v["violates"])
+        okak = okak and not v["violates"]
+        impl["judge_detail"] = v["detail"]
+    coq_case = (Raw(f'"{name}"'), (isg, nq, pok, mok), (Fraction(cs[0]), Fraction(cs[1])), wl, okak, exp)
     if group.startswith("kak"):   # 58-term cases are the expensive ones for coqc: spread them over shards
         _KAKN[0] += 1
         group = f"{group}-{_KAKN[0] % 6}"
@@ -334,6 +350,7 @@ def generate(rng, tier, outdir):
         TS += [Fraction(int(rng.integers(-60, 60)), int(rng.integers(1, 60))) for _ in range(60)]
     SPECIAL = [0.0, math.pi, -math.pi, math.pi / 2, -math.pi / 2, 2 * math.pi, -4 * math.pi, 6 * math.pi, 13.7, -29.1,
                4 * math.pi + 1e-3, 1e-8, -1e-12, 1e-300, math.pi / 3, math.pi / 7, math.pi / 11, 3 * math.pi / 2, -25.132741228718345]
+    NEAR_DELTAS = [1e-2, -1e-2, 1e-3, -1e-3, 1e-4, -1e-4, 1e-6, -1e-6, 1e-9, -1e-9]
     if not quick:
         SPECIAL += [float(x) for x in rng.uniform(-8 * math.pi, 8 * math.pi, size=80)]
 
@@ -358,6 +375,15 @@ def generate(rng, tier, outdir):
             spec = dict(ctor="std", name=name, params=[theta])
             run_case(w, "family-special", spec, th2=(theta / 2 if ctrl else None), cs=(c, s))
             w.count("family.stream", "special")
+        # near-special stream: theta = k*pi/2 + delta (close to, not at, the special points)
+        for k in range(-16, 17):
+            for delta in NEAR_DELTAS:
+                theta = k * (math.pi / 2) + delta
+                thp = (theta / 4) if ctrl else (-theta / 2)
+                c, s = Fraction(math.cos(thp)), Fraction(math.sin(thp))
+                spec = dict(ctor="std", name=name, params=[theta])
+                run_case(w, "family-near-special", spec, th2=(theta / 2 if ctrl else None), cs=(c, s), and_judge=True)
+                w.count("family.stream", "near-special")
         # bound ParameterExpression, integer parameter, label
         run_case(w, "family-special", dict(ctor="expr", name=name, value=0.8),
                  th2=(0.8 / 2 if ctrl else None),
@@ -447,7 +473,8 @@ def generate(rng, tier, outdir):
 
     return w.finish(
         rule="all 20 registered names; 7 parameterised families x rational-circle angles (model evaluated exactly at rational "
-             "cos/sin) + special angles (0, ±pi, 2pi k, |theta|>4pi, tiny) + bound ParameterExpression; fixed gates with/without "
+             "cos/sin) + special angles (0, ±pi, 2pi k, |theta|>4pi, tiny) + near-special grid theta = k*pi/2 + delta, k=-16..16, "
+             "delta in ±{1e-2,1e-3,1e-4,1e-6,1e-9} (independent PTM residual ANDed into the case) + bound ParameterExpression; fixed gates with/without "
              "label; KAK path: Haar-random, local products, identity, Weyl-chamber corners/edges conjugated by random locals, "
              "near-special points (±1e-5), rzx/xx_plus_yy/xx_minus_yy incl. 7e-5, cu3/cu; malformed: 3-qubit/1-qubit gates, "
              "non-gate instructions, opaque gates, unbound parameters. Compared exactly: sharing structure (list identities), "
@@ -470,7 +497,15 @@ def decomposable(spec, flags):
 
 
 def judge(case):
-    k = case["kind"]
+    """Total: works from the JSON case alone; never raises."""
+    try:
+        return _judge(case)
+    except Exception as e:  # noqa: BLE001
+        return dict(violates=None, detail=f"oracle could not evaluate the case: {type(e).__name__}: {e}")
+
+
+def _judge(case):
+    k = case.get("kind")
     if k != "basis":
         return dict(violates=False, detail="specification-vs-Qiskit comparison; a disagreement means the Coq specification "
                                            "(Common/Ptm.v) is wrong, not the implementation")
